@@ -52,6 +52,11 @@ type Config struct {
 	// replica(/bs/, /index/) while /sync-to-.../ copies from /bs/): what the
 	// source receives that way must be delivered like any other blob.
 	ViaReplica bool `json:"viaReplica,omitempty"`
+	// SrcShort, DstShort > 0: the source / destination store sends at most
+	// that many blobs per enumeration call (legal: "at most limit"); the
+	// sync handler reads both through blobserver.EnumerateAll(From) only.
+	SrcShort int `json:"srcShort,omitempty"`
+	DstShort int `json:"dstShort,omitempty"`
 }
 
 // Op is one element of Plan.Ops.
@@ -313,6 +318,10 @@ func gen(tier string, run int, r *simcore.Rand) *harness.Plan {
 	}
 	if cfg.Ctor == "config" && r.Bool(0.15) {
 		cfg.ViaReplica = true
+	}
+	if (cfg.FullSync || cfg.Validate) && r.Bool(0.35) {
+		cfg.SrcShort = []int{0, 1, 2, 5}[r.Intn(4)]
+		cfg.DstShort = []int{0, 1, 2, 5}[r.Intn(4)]
 	}
 	if backlog {
 		cfg.WorkBuf = r.Range(1, 3)
